@@ -286,7 +286,9 @@ pub fn run(ctx: &Ctx) -> i32 {
     replay_regressions(ctx, &stats, &mut report, &replay);
     SKIP_EMPTY_REMEMBER.store(ctx.open("show.remember_on_empty_result"), std::sync::atomic::Ordering::Relaxed);
     ADVANCE_AFTER_SHOW.store(ctx.open("show.event_on_high_water_second"), std::sync::atomic::Ordering::Relaxed);
-    let ex = Excl { restart: ctx.open("show.after_restart"), compaction: ctx.open("show.after_compaction"), same_second: ctx.open("show.event_on_high_water_second"), flush_between: ctx.open("show.flush_after_remember"), where_not_returned: ctx.open("show.where_field_not_returned") };
+    // (restarts: also excluded while C01's findings that store events twice across a clean restart are open - the
+    // materialisation does not de-duplicate by id, the live QUERY does)
+    let ex = Excl { restart: ctx.open("show.after_restart") || ctx.open_any("crash.after_manual_flush_or_clean_restart") || ctx.open_any("crash.store_after_compaction_and_restart"), compaction: ctx.open("show.after_compaction"), same_second: ctx.open("show.event_on_high_water_second"), flush_between: ctx.open("show.flush_after_remember"), where_not_returned: ctx.open("show.where_field_not_returned") };
     crate::props::c02::KNOWN_ID_REUSE.store(ctx.open_any("layout.stale_cache_after_id_reuse"), std::sync::atomic::Ordering::Relaxed);
     let wx = crate::props::c02::WhereExcl::from_ctx_any(ctx);
     let cases = ctx.tier.pick(96, 1500);
